@@ -1,2 +1,124 @@
-(* C20 (DOT export): placeholder *)
-From AJ Require Import Common.Util Graph.GModel.
+(* Executable statements of C20, evaluated on the implementation's outputs. *)
+From AJ Require Import Common.Util Graph.GModel Graph.GSpecs Graph.Dot.
+
+Definition aval_eqb (a b : aval) : bool :=
+  match a, b with
+  | VId x, VId y => bytes_eqb x y
+  | VStr x, VStr y => bytes_eqb x y
+  | _, _ => false
+  end.
+
+Fixpoint attrs_eqb (a b : list attr) : bool :=
+  match a, b with
+  | [], [] => true
+  | (k, v) :: a', (k', v') :: b' => bytes_eqb k k' && aval_eqb v v' && attrs_eqb a' b'
+  | _, _ => false
+  end.
+
+Fixpoint stmt_eqb (s1 s2 : stmt) : bool :=
+  match s1, s2 with
+  | SAssign k v, SAssign k' v' => bytes_eqb k k' && bytes_eqb v v'
+  | SGraph a, SGraph a' => attrs_eqb a a'
+  | SNode i a, SNode i' a' => bytes_eqb i i' && attrs_eqb a a'
+  | SEdge s d a, SEdge s' d' a' => bytes_eqb s s' && bytes_eqb d d' && attrs_eqb a a'
+  | SSub n b, SSub n' b' =>
+      bytes_eqb n n' &&
+      (fix go (l1 l2 : list stmt) : bool :=
+         match l1, l2 with
+         | [], [] => true
+         | x :: l1', y :: l2' => stmt_eqb x y && go l1' l2'
+         | _, _ => false
+         end) b b'
+  | _, _ => false
+  end.
+
+Fixpoint stmts_eqb (l1 l2 : list stmt) : bool :=
+  match l1, l2 with
+  | [], [] => true
+  | x :: l1', y :: l2' => stmt_eqb x y && stmts_eqb l1' l2'
+  | _, _ => false
+  end.
+
+Definition graph_eqb (g1 g2 : graph) : bool :=
+  bytes_eqb (gname g1) (gname g2) && stmts_eqb (gbody g1) (gbody g2).
+
+(* [out]: what dot_format() returned, None if it raised.  The export must parse (in the DOT
+   subset) to exactly the abstract graph of the tree; it must raise exactly when the model
+   does. *)
+Definition c20_spec_b (rq : rmap) (inf : infos) (t : jtree) (out : option bytes) : bool :=
+  match dot_ast rq inf t, out with
+  | Ok g, Some b => match parse b with Some g' => graph_eqb g' g | None => false end
+  | Err _, None => true
+  | _, _ => false
+  end.
+
+(* ---------- list() ---------- *)
+(* a printed line: kind, job, printed id, depth ('>' count; for an end line '<' count minus 1) *)
+Definition lrow := (lkind * nat * nat * nat)%type.
+
+Definition row_of (x : lline * nat) : lrow := (lkind_of (fst x), ljob (fst x), snd x, ldepth (fst x)).
+
+(* (child, parent, child is a scheduler) for every job below the root *)
+Fixpoint family (t : jtree) : list (nat * nat * bool) :=
+  match t with
+  | Atom _ => []
+  | Sched i kids => map (fun k => (tid k, i, is_sched k)) kids ++ flat_map family kids
+  end.
+
+Definition is_child (fam : list (nat * nat * bool)) (p c : nat) (sched : bool) : bool :=
+  existsb (fun x => match x with (c', p', s') => Nat.eqb c c' && Nat.eqb p p' && Bool.eqb s' sched end) fam.
+
+(* the lines are a well-bracketed walk of the tree: every line sits directly under the scheduler
+   whose header is the innermost open one, at the depth of the nesting *)
+Fixpoint walk_lines (fam : list (nat * nat * bool)) (root : nat) (stack : list nat) (ls : list lrow)
+  : bool :=
+  match ls with
+  | [] => is_nil stack
+  | (k, j, _, d) :: ls' =>
+      match k with
+      | LJob => Nat.eqb d (length stack) && is_child fam (hd root stack) j false
+                && walk_lines fam root stack ls'
+      | LBegin => Nat.eqb d (length stack) && is_child fam (hd root stack) j true
+                  && walk_lines fam root (j :: stack) ls'
+      | LEnd => match stack with
+                | s :: st' => Nat.eqb s j && Nat.eqb d (length st') && walk_lines fam root st' ls'
+                | [] => false
+                end
+      end
+  end.
+
+Definition is_end (r : lrow) : bool := match r with (LEnd, _, _, _) => true | _ => false end.
+Definition row_job (r : lrow) : nat := match r with (_, j, _, _) => j end.
+Definition row_id (r : lrow) : nat := match r with (_, _, i, _) => i end.
+
+Fixpoint row_id_of (ls : list lrow) (j : nat) : nat :=
+  match ls with
+  | [] => 0
+  | r :: ls' => if negb (is_end r) && Nat.eqb (row_job r) j then row_id r else row_id_of ls' j
+  end.
+
+(* numbering increases along every requirement between two jobs of the same scheduler *)
+Fixpoint req_order_ok (rq : rmap) (idof : nat -> nat) (t : jtree) : bool :=
+  match t with
+  | Atom _ => true
+  | Sched _ kids =>
+      forallb (fun k => forallb (fun r => negb (memb r (map tid kids)) || (idof r <? idof (tid k)))
+                                (rq (tid k))) kids
+      && forallb (req_order_ok rq idof) kids
+  end.
+
+Definition c20_list_spec_b (rq : rmap) (t : jtree) (out : option (list lrow)) : bool :=
+  match out with
+  | None => match list_model rq t with None => true | Some _ => false end
+  | Some ls =>
+      let heads := filter (fun r => negb (is_end r)) ls in
+      (* every job of the tree exactly once *)
+      nodup_b (map row_job heads) && same_set (map row_job heads) (below t)
+      (* numbered 1, 2, 3 ... in the order of the lines *)
+      && list_eqb (map row_id heads) (seq 1 (length heads))
+      && forallb (fun r => negb (is_end r) || Nat.eqb (row_id r) (row_id_of ls (row_job r))) ls
+      (* nested as the schedulers are *)
+      && walk_lines (family t) (tid t) [] ls
+      (* in topological order *)
+      && req_order_ok rq (row_id_of ls) t
+  end.
